@@ -1,6 +1,7 @@
 package main
 
 import (
+	"reflect"
 	"encoding/json"
 	"slices"
 	"strconv"
@@ -208,6 +209,17 @@ func runKVV[K comparable, V any](p *Plan, st *RunStats, o *Oracle, d *Dom[K], mk
 				if g, w := obs(f), want(); !slices.Equal(g, w) {
 					o.Fail("C11", "restart-content", "after reloading %s into a fresh container: %v, want %v", b, g, w)
 					return
+				}
+				// the reloaded values are the Go values encoding/json makes of the document (a number read into an `any`
+				// is a float64, not a json.Number or an int: the same text is not the same content)
+				ref := map[K]V{}
+				if err := json.Unmarshal(b, &ref); err == nil {
+					for k, rv := range ref {
+						if g, ok := f.Get(k); !ok || !reflect.DeepEqual(g, rv) {
+							o.Fail("C11", "restart-content", "after reloading %s into a fresh container Get(%s) = %T(%v) (found %v); encoding/json reads that member as %T(%v)", b, d.Str(k), g, g, ok, rv, rv)
+							return
+						}
+					}
 				}
 				if g, l := obs(f), obs(m); !slices.Equal(g, l) {
 					o.Fail("C11", "restart-differs-from-live", "reloaded container %v differs from the live one %v (document %s)", g, l, b)
